@@ -332,4 +332,54 @@ theorem fromQuery_good (q : Stmt) : Good 0 (fromQuery true q) := by
   | delete s => exact hd s
   | other => exact pFail_good 0 _ trivial
 
+/-! ### the CTE dictionary -/
+
+theorem dictGet_mem (dict : List (Name × SNum)) (key : Name) (r : SNum) (h : dictGet dict key = some r) :
+    ∃ k, (k, r) ∈ dict := by
+  induction dict with
+  | nil => simp [dictGet] at h
+  | cons x xs ih =>
+    obtain ⟨k, v⟩ := x
+    simp only [dictGet] at h
+    split at h
+    · simp at h; subst h; exact ⟨k, List.mem_cons_self ..⟩
+    · obtain ⟨k', hk⟩ := ih h; exact ⟨k', List.mem_cons_of_mem _ hk⟩
+
+/-- when the membership test and the dictionary access use the same key, resolving a table name never raises -/
+theorem cteRef_total (k : CteKeys) (hk : ∀ n, k.test n = k.fetch n) (dict : List (Name × SNum)) (name : Name) :
+    ∃ o, cteRef k dict name = .ok o := by
+  unfold cteRef
+  rw [hk]
+  cases h : dictGet dict (k.fetch name) with
+  | none => exact ⟨none, by simp⟩
+  | some r => exact ⟨some r, by simp⟩
+
+/-- a CTE is found under the name it was stored with when all three keys agree -/
+theorem cteRef_stored (k : CteKeys) (hs : ∀ n, k.store n = k.test n) (hk : ∀ n, k.test n = k.fetch n)
+    (dict : List (Name × SNum)) (name : Name) (r : SNum) :
+    cteRef k (cteStore k dict name r) name = .ok (some r) := by
+  simp [cteRef, cteStore, dictGet, ← hk, ← hs]
+
+/-- **C09 for a table reference under a default namespace**: with consistent keys and a dictionary of earlier
+results, `plan_integration_select` of a bare name satisfies C09 (fetch, or sub-select on the CTE result) -/
+theorem planTableRef_good (n : Nat) (k : CteKeys) (hk : ∀ m, k.test m = k.fetch m) (dict : List (Name × SNum))
+    (hd : ∀ key r, (key, r) ∈ dict → refOKTop n r = true) (name : Name) (params : List SNum)
+    (hp : params.all (refOKTop n) = true) : Good n (planTableRef k dict name params) := by
+  unfold planTableRef
+  obtain ⟨o, ho⟩ := cteRef_total k hk dict name
+  rw [ho]
+  cases o with
+  | none => exact planIntegrationSelect_good n false params hp
+  | some r =>
+    apply planIntegrationSelect_good n true
+    simp only [List.all_cons, hp, Bool.and_true]
+    have : dictGet dict (k.fetch name) = some r := by
+      unfold cteRef at ho
+      rw [hk] at ho
+      cases h : dictGet dict (k.fetch name) with
+      | none => simp [h] at ho
+      | some r' => simp [h] at ho; rw [ho]
+    obtain ⟨key, hm⟩ := dictGet_mem dict _ r this
+    exact hd key r hm
+
 end MindsVerif.Plan
